@@ -18,7 +18,13 @@ import Proofs.GoTieWitnessA
 namespace AgeModel
 namespace Tie.C10
 
-theorem checks_precede_kdf : Extracted.scryptChecksPrecedeKdf = true := by decide
+/-- the extractor's own verdict (a constant it writes), AND the same fact recomputed here from the event table it
+    emits: the source lines of the four events are strictly increasing and `scrypt.Key` occurs once, last -/
+theorem checks_precede_kdf :
+    Extracted.scryptChecksPrecedeKdf = true ∧
+    (Extracted.scryptUnwrapOrder.map (·.2)).Pairwise (· < ·) ∧
+    (Extracted.scryptUnwrapOrder.filter (·.1 == "scrypt.Key")).length = 1 ∧
+    (Extracted.scryptUnwrapOrder.getLast?.map (·.1)) = some "scrypt.Key" := by decide
 
 /-- the order itself: regexp, Atoi, comparison with the receiver's field, scrypt.Key -/
 theorem unwrap_order : Extracted.scryptUnwrapOrder.map (·.1) =
@@ -184,6 +190,22 @@ theorem decryptNotPass_reject_first {ι τ υ : Type} (reject : ι) (PIF : Bytes
     (NI : Bytes → υ → τ → Go.M (ι × Option Go.Err × τ)) (flags : List Extracted.main_identityFlag) (t0 : τ) (r : τ × List ι)
     (h : GoTie.collectIds PIF ui NI flags t0 [reject] = .ok r) : ∃ more, r.2 = reject :: more :=
   GoTie.decryptNotPass_reject_first reject PIF ui NI flags t0 r h
+
+/-- … stated about the translated function itself (`decryptNotPass_tie` composed with the lemma above): let `decrypt`
+    behave ARBITRARILY on identity lists that do not begin with `rejectScryptIdentity{}` — `decryptNotPass` cannot tell,
+    because it never calls it on one -/
+theorem code_reject_first {ζ ι τ υ : Type} (reject : ι) (PIF : Bytes → τ → Go.M (List ι × Option Go.Err × τ)) (ui : υ)
+    (NI : Bytes → υ → τ → Go.M (ι × Option Go.Err × τ)) (D D' : List ι → Bytes → ζ → τ → Go.M τ)
+    (hD : ∀ more i o t, D (reject :: more) i o t = D' (reject :: more) i o t)
+    (flags : List Extracted.main_identityFlag) (inp : Bytes) (out : ζ) (t0 : τ) :
+    Extracted.main_decryptNotPass reject PIF ui NI D flags inp out t0 =
+      Extracted.main_decryptNotPass reject PIF ui NI D' flags inp out t0 := by
+  rw [GoTie.decryptNotPass_tie, GoTie.decryptNotPass_tie]
+  cases h : GoTie.collectIds PIF ui NI flags t0 [reject] with
+  | error e => rfl
+  | ok r =>
+    obtain ⟨more, hm⟩ := decryptNotPass_reject_first reject PIF ui NI flags t0 r h
+    simp only [bind, Except.bind, hm, hD]
 
 theorem encryptPass_tie {ζ ρ τ : Type} (Pr : τ → Go.M (Bytes × Option Go.Err × τ)) (NS : Bytes → τ → Go.M (ρ × Option Go.Err × τ))
     (Cfg : ρ → Go.M Unit) (E : List ρ → Bytes → ζ → Bool → τ → Go.M τ) (inp : Bytes) (out : ζ) (armor : Bool) (t0 : τ) :
